@@ -27,27 +27,47 @@ HEADER = "From DA Require Import PyBase Slicing NdArray ExprRules.\nOpen Scope Z
 # rule key -> index in apply_rule (Coq side)
 RULES = ["slice_down", "slice_elemwise", "slice_transpose", "transpose_down", "rechunk_noop",
          "rechunk_rechunk", "slice_expand_dims", "slice_arange", "slice_fromarray", "rechunk_fromarray",
-         "rechunk_elemwise"]
+         "rechunk_elemwise", "slice_concat", "slice_stack", "slice_full", "elemwise_lower", "rechunk_lower",
+         "slice_broadcast_to", "rechunk_concat", "rechunk_expand_dims", "rechunk_transpose"]
 RULE_FN = {"slice_down": "rule_slice_down", "slice_elemwise": "rule_slice_elemwise",
            "slice_transpose": "rule_slice_transpose", "transpose_down": "rule_transpose_down",
            "rechunk_noop": "rule_rechunk_noop", "rechunk_rechunk": "rule_rechunk_rechunk",
            "slice_expand_dims": "rule_slice_expand_dims", "slice_arange": "rule_slice_arange",
            "slice_fromarray": "rule_slice_fromarray lim", "rechunk_fromarray": "rule_rechunk_fromarray",
-           "rechunk_elemwise": "rule_rechunk_elemwise"}
+           "rechunk_elemwise": "rule_rechunk_elemwise", "slice_concat": "rule_slice_concat",
+           "slice_stack": "rule_slice_stack", "slice_full": "rule_slice_full",
+           "elemwise_lower": "rule_elemwise_lower tgt", "rechunk_lower": "rule_rechunk_lower p2p",
+           "slice_broadcast_to": "rule_slice_broadcast_to", "rechunk_concat": "rechunk_through_concat",
+           "rechunk_expand_dims": "rule_rechunk_expand_dims", "rechunk_transpose": "rule_rechunk_transpose"}
 
-APPLY_DEF = ("Definition apply_rule (r : nat) (lim : Z) (e : expr) : option expr :=\n  match r with\n"
+APPLY_DEF = ("Definition apply_rule (r : nat) (lim : Z) (tgt : list (list Z)) (p2p : bool) (e : expr) : option expr :=\n  match r with\n"
              + "".join(f"  | {i}%nat => {RULE_FN[r]} e\n" for i, r in enumerate(RULES))
              + "  | _ => None\n  end.\n")
-CASE_T = "nat * Z * expr * option expr"      # rule, _NUMPY_SLICE_PUSHDOWN_NBYTES_LIMIT in force, before, after
-CHK_RULE = (APPLY_DEF + "Definition chk (c : nat * Z * expr * option expr) : bool := let '(r, lim, b, a) := c in "
-            "oexpr_eqb (apply_rule r lim b) a.")
+# rule, _NUMPY_SLICE_PUSHDOWN_NBYTES_LIMIT in force, oracle: unified chunks (Elemwise._lower), oracle: rechunk method is
+# p2p (Rechunk._lower), before, after
+CASE_T = "nat * Z * list (list Z) * bool * expr * option expr"
+CHK_RULE = (APPLY_DEF + "Definition chk (c : " + CASE_T + ") : bool := let '(r, lim, tgt, p2p, b, a) := c in "
+            "oexpr_eqb (apply_rule r lim tgt p2p b) a.")
 # the hypotheses of the rule's soundness theorem: wfb, plus the rule-specific normal-form hypothesis
 HYPS_DEF = ("Definition hyps (r : nat) (b : expr) : bool :=\n  wfb b &&\n  match r with\n"
             f"  | {RULES.index('slice_expand_dims')}%nat => rule_hyps_slice_expand_dims b\n"
             f"  | {RULES.index('slice_fromarray')}%nat => rule_hyps_slice_fromarray b\n"
             "  | _ => true\n  end.\n")
-CHK_BOTH = (APPLY_DEF + HYPS_DEF + "Definition chk (c : nat * Z * expr * option expr) : bool := let '(r, lim, b, a) := c in "
-            "oexpr_eqb (apply_rule r lim b) a && match a with Some _ => hyps r b | None => true end.")
+CHK_BOTH = (APPLY_DEF + HYPS_DEF + "Definition chk (c : " + CASE_T + ") : bool := let '(r, lim, tgt, p2p, b, a) := c in "
+            "oexpr_eqb (apply_rule r lim tgt p2p b) a && match a with Some _ => hyps r b | None => true end.")
+
+
+NEW_RULES = ("slice_concat", "slice_stack", "slice_full", "elemwise_lower", "rechunk_lower", "slice_broadcast_to",
+             "rechunk_concat", "rechunk_expand_dims", "rechunk_transpose")
+
+
+# rules that promise to keep the advertised chunks: where the model knows the chunks of both sides, Coq compares them on every
+# matched instance (proved for all of them except the slice composition of Rechunk._lower, which is only checked this way)
+CHUNK_RULES = ("rechunk_lower", "rechunk_concat", "rechunk_fromarray", "rechunk_rechunk", "rechunk_noop", "slice_full",
+               "rechunk_expand_dims")
+CHK_CHUNKS = ("Definition chk (c : " + "nat * Z * list (list Z) * bool * expr * option expr" + ") : bool := let '(r, lim, tgt, p2p, b, a) := c in "
+              "match a with Some a' => match echunks b, echunks a' with Some x, Some y => zll_eqb x y | _, _ => true end "
+              "| None => true end.")
 
 
 class Unmodelled(Exception):
@@ -84,7 +104,7 @@ class Reifier:
     operator tuples are interned as integers (shared by before and after)."""
 
     STRUCT_CLASSES = {"Elemwise", "Transpose", "SliceSlicesIntegers", "Rechunk", "ExpandDims", "Concatenate", "Arange",
-                      "FromArray"}
+                      "FromArray", "Stack", "Ones", "Zeros", "Full", "TasksRechunk", "BroadcastTo"}
 
     def __init__(self, opaque=(), strict=()):
         self.names, self.consts, self.ops, self.specs = {}, {}, {}, {}
@@ -159,6 +179,40 @@ class Reifier:
                 raise      # a modelled class with unmodelled operands (e.g. Elemwise with where=): the instance is unmodelled
             return self.leaf(e)
 
+    def elemwise(self, e, before_ops=None):
+        """Elemwise -> EElemwise.  With before_ops (the operands of the rule's `before` Elemwise, position by position):
+        an operand the rule replaced (different _name at its position) is reified structurally even when its _name is
+        that of an opaque operand (a rechunk of operand j may be the very node that is operand i)."""
+        from dask_array._core_utils import is_scalar_for_elemwise
+        from dask_array._expr import ArrayExpr
+        operands = list(e.elemwise_args)
+        op = self._intern(self.ops, (repr(e.op), repr(e.operand("dtype")), repr(e.operand("name")),
+                                     repr(e.operand("_user_kwargs"))))
+        if e.where is not True or e.out is not None:
+            # where= and out= both arrays: they take part block by block like the other operands (op < 0 marks it)
+            if not (isinstance(e.where, ArrayExpr) and isinstance(e.out, ArrayExpr)):
+                raise Unmodelled("Elemwise with where=/out= (not both arrays)")
+            operands += [e.where, e.out]
+            op = -op
+        args = []
+        for i, a in enumerate(operands):
+            if isinstance(a, ArrayExpr):
+                replaced = (before_ops is not None and i < len(before_ops) and hasattr(before_ops[i], "_name")
+                            and before_ops[i]._name != a._name and a._name in self.opaque)
+                if replaced:
+                    self.opaque.discard(a._name)
+                    try:
+                        args.append(self.child(a))
+                    finally:
+                        self.opaque.add(a._name)
+                else:
+                    args.append(self.child(a))
+            elif is_scalar_for_elemwise(a):
+                args.append(f"(EConst {self._intern(self.consts, (type(a).__name__, repr(a)))})")
+            else:
+                raise Unmodelled("Elemwise operand " + type(a).__name__)
+        return f"(EElemwise {cz(op)} {clist(args, str)})"
+
     def node(self, e):
         from dask_array._blockwise import Elemwise
         from dask_array._core_utils import is_scalar_for_elemwise
@@ -170,9 +224,39 @@ class Reifier:
         from dask_array.manipulation._transpose import Transpose
         from dask_array.slicing._basic import SliceSlicesIntegers
         from dask_array.stacking._concatenate import Concatenate
+        from dask_array.stacking._stack import Stack
+        from dask_array._rechunk import TasksRechunk
+        from dask_array._broadcast_to import BroadcastTo
+        from dask_array.creation._ones_zeros import Full, Ones, Zeros
         t = type(e)
         if e._name in self.opaque:
             raise Unmodelled("opaque by request")
+        if t is Stack:
+            args = e.args
+            return f"(EStack {self.child(args[0])} {cnat(e.axis)} {clist([self.child(a) for a in args[1:]], str)})"
+        if t in (Ones, Zeros, Full):
+            # the constant is identified by (class, dtype, meta, kwargs): everything but shape, chunks and name
+            kw = e.operand("kwargs")
+            fid = self._intern(self.consts, ("full", t.__name__, repr(e.operand("dtype")), repr(e.operand("meta")),
+                                             repr(sorted(kw.items(), key=lambda kv: kv[0])) if isinstance(kw, dict) else repr(kw)))
+            return f"(EFull {fid} {czl(self._int_shape(e))} {czll(self._int_chunks(e.chunks))})"
+        if t is TasksRechunk:
+            tb = (e.threshold, e.block_size_limit)
+            prm = 0 if tb == (None, None) else self._intern(self.specs, repr(tb))
+            return f"(ETasksRechunk {self.child(e.array)} {czll(self._int_chunks(e.chunks))} {prm})"
+        if t is BroadcastTo:
+            shp = e.operand("_shape")
+            if not all(isinstance(n, Integral) for n in shp):
+                raise Unmodelled("unknown shape")
+            shp = [int(n) for n in shp]
+            ch = self._int_chunks(e.chunks)
+            ish = self._int_shape(e.array)
+            # a BroadcastTo whose operand no longer broadcasts to its recorded _shape (a rewrite below changed the operand's
+            # shape or block grid: known findings F20 / F24) is outside every theorem's hypotheses (wfb): not modelled
+            if (len(ish) > len(shp) or any(a != 1 and a != n for a, n in zip(ish, shp[len(shp) - len(ish):]))
+                    or [sum(c) for c in ch] != shp):
+                raise Unmodelled("ill-formed BroadcastTo (operand does not broadcast to _shape)")
+            return f"(EBroadcastTo {self.child(e.array)} {czl(shp)} {czll(ch)})"
         if t is FromArray:
             arr = e.array
             if not hasattr(arr, "dtype"):
@@ -190,19 +274,7 @@ class Reifier:
         if t is Transpose:
             return f"(ETranspose {self.child(e.array)} {cnatl(e.axes)})"
         if t is Elemwise:
-            if e.where is not True or e.out is not None:
-                raise Unmodelled("Elemwise with where=/out=")
-            op = self._intern(self.ops, (repr(e.op), repr(e.operand("dtype")), repr(e.operand("name")),
-                                         repr(e.operand("_user_kwargs"))))
-            args = []
-            for a in e.elemwise_args:
-                if isinstance(a, ArrayExpr):
-                    args.append(self.child(a))
-                elif is_scalar_for_elemwise(a):
-                    args.append(f"(EConst {self._intern(self.consts, (type(a).__name__, repr(a)))})")
-                else:
-                    raise Unmodelled("Elemwise operand " + type(a).__name__)
-            return f"(EElemwise {op} {clist(args, str)})"
+            return self.elemwise(e)
         if t is Rechunk:
             # canonical ids: 0 = the raw _chunks operand is the resolved tuple / all of threshold, limit, method are None
             raw = e.operand("_chunks")
@@ -233,7 +305,15 @@ def classify(rule, before, after):
     from dask_array.manipulation._expand import ExpandDims
     from dask_array.manipulation._transpose import Transpose
     from dask_array.slicing._basic import SliceSlicesIntegers
+    from dask_array.stacking._concatenate import Concatenate
+    from dask_array.stacking._stack import Stack
+    from dask_array.creation._ones_zeros import Full, Ones, Zeros
+    from dask_array._broadcast_to import BroadcastTo
     tb = type(before)
+    if rule == "Elemwise._lower" and tb is Elemwise:
+        return "elemwise_lower"
+    if rule == "Rechunk._lower" and tb is Rechunk:
+        return "rechunk_lower"
     if rule == "SliceSlicesIntegers._simplify_down" and tb is SliceSlicesIntegers:
         return "slice_down"
     if rule == "Transpose._simplify_down" and tb is Transpose:
@@ -254,12 +334,26 @@ def classify(rule, before, after):
                 return "slice_arange"
             if rule == "FromArray._simplify_up" and tc is FromArray:
                 return "slice_fromarray"
+            if rule == "Concatenate._simplify_up" and tc is Concatenate:
+                return "slice_concat"
+            if rule == "Stack._simplify_up" and tc is Stack:
+                return "slice_stack"
+            if rule == "BroadcastTo._simplify_up" and tc is BroadcastTo:
+                return "slice_broadcast_to"
+            if rule in ("Ones._simplify_up", "Zeros._simplify_up", "Full._simplify_up") and tc in (Ones, Zeros, Full):
+                return "slice_full"
         if tb is Rechunk and rule == "FromArray._simplify_up" and tc is FromArray:
             return "rechunk_fromarray"
         if tb is Rechunk and rule == "Elemwise._simplify_up" and tc is Elemwise:
             return "rechunk_elemwise"
         if tb is Rechunk and rule == "Rechunk._simplify_up" and tc is Rechunk:
             return "rechunk_rechunk"
+        if tb is Rechunk and rule == "Concatenate._simplify_up" and tc is Concatenate:
+            return "rechunk_concat"
+        if tb is Rechunk and rule == "ExpandDims._simplify_up" and tc is ExpandDims:
+            return "rechunk_expand_dims"
+        if tb is Rechunk and rule == "Transpose._simplify_up" and tc is Transpose:
+            return "rechunk_transpose"
     return None
 
 
@@ -278,6 +372,68 @@ def eager_copy_hints(r, before):
     idx = tuple(before.index) + (slice(None),) * (base.ndim - len(before.index))
     region = tuple(slice(i, i + 1) if isinstance(i, Integral) else i for i in idx)
     return [(base, r.sources[id(base)], region)]
+
+
+def elemwise_lower_oracle(before):
+    """Elemwise._lower: the unified layout chunkss chosen by unify_chunks_expr, per OUTPUT axis (the index labels of an
+    Elemwise are range(ndim)[::-1])"""
+    from dask_array._expr import unify_chunks_expr
+    with warnings.catch_warnings():
+        warnings.simplefilter("ignore")
+        chunkss, _, _ = unify_chunks_expr(*before.args)
+    n = len(before.out_ind)
+    out = []
+    for pos in range(n):
+        c = chunkss.get(n - 1 - pos)
+        if c is None or not all(isinstance(x, Integral) for x in c):
+            raise Unmodelled("unified chunks unknown")
+        out.append([int(x) for x in c])
+    return czll(out)
+
+
+def rechunk_lower_oracle(before):
+    """Rechunk._lower: what _choose_rechunk_method answers (configuration / distributed client)"""
+    from dask_array._rechunk import _choose_rechunk_method
+    if before.method is not None or before.threshold is not None or before.block_size_limit is not None:
+        raise Unmodelled("rechunk with threshold/block_size_limit/method")
+    try:
+        return _choose_rechunk_method(before.array.chunks, before.chunks, threshold=before.threshold) == "p2p"
+    except Exception:  # noqa: BLE001
+        raise Unmodelled("rechunk method choice raises")
+
+
+def concat_parts_opaque(concat):
+    """Rechunk._pushdown_through_concatenate reads the parts' chunks and asks reads whether they absorb a rechunk:
+    NumPy reads stay structural, every other part is an opaque leaf"""
+    from dask_array.io._from_array import FromArray
+    names = []
+    for a in concat.args:
+        if type(a) is FromArray:
+            if type(a.array) not in (np.ndarray, np.ma.core.MaskedArray):
+                raise Unmodelled("rechunk through concatenate: read from a store (native chunks)")
+        elif getattr(a, "_can_rechunk_pushdown", False):
+            raise Unmodelled("rechunk through concatenate: IO part " + type(a).__name__)
+        else:
+            names.append(a._name)
+    return names
+
+
+def rechunk_lower_opaque(before):
+    """Rechunk._lower looks at the child's chunks only, except for a FromArray (read re-cut), a slice (composition:
+    the slice's own child is then the opaque one) and a Concatenate (redistribution: not modelled)"""
+    from dask_array.io._from_array import FromArray
+    from dask_array.slicing._basic import SliceSlicesIntegers
+    from dask_array.stacking._concatenate import Concatenate
+    child = before.array
+    if type(child) is FromArray:
+        if type(child.array) not in (np.ndarray, np.ma.core.MaskedArray):
+            raise Unmodelled("rechunk_lower: read from a store (native chunks)")
+        return []
+    if isinstance(child, Concatenate):
+        return concat_parts_opaque(child)
+    if type(child) is SliceSlicesIntegers:
+        return [child.array._name]
+    return [child._name]
 
 
 class RuleCheck:
@@ -305,27 +461,54 @@ class RuleCheck:
         self.seen.add(ident)
         # the no-op rechunk rule only looks at the child's chunks: the child is a leaf carrying them
         # (likewise the operands of an Elemwise a rechunk is pushed through)
+        tgt, p2p = "[]", False
         if key == "rechunk_noop":
             opaque = [before.array._name]
         elif key == "rechunk_elemwise":
-            opaque = [a._name for a in before.array.elemwise_args if hasattr(a, "_name")]
+            opaque = [a._name for a in (*before.array.elemwise_args, before.array.where, before.array.out) if hasattr(a, "_name")]
+        elif key == "elemwise_lower":
+            opaque = [a._name for a in (*before.elemwise_args, before.where, before.out) if hasattr(a, "_name")]
+        elif key == "slice_broadcast_to":
+            opaque = [before.array.array._name]       # the new chunks are read off the (sliced) input's chunks
+        elif key == "rechunk_transpose":
+            opaque = [before.array.array._name]       # x.rechunk(..) compares with x's chunks
         else:
             opaque = ()
         child = getattr(before, "array", None)
         r = Reifier(opaque=opaque, strict=[child._name] if hasattr(child, "_name") else ())
         try:
+            if key == "rechunk_lower":
+                r.opaque = set(rechunk_lower_opaque(before))
+            elif key == "rechunk_concat":
+                r.opaque = set(concat_parts_opaque(before.array))
+            elif key == "rechunk_transpose":
+                raw = before.operand("_chunks")
+                if not (isinstance(raw, tuple) and raw == before.chunks):
+                    raise Unmodelled("rechunk through transpose: raw chunk spec is not the resolved tuple")
+            if key == "elemwise_lower":
+                tgt = elemwise_lower_oracle(before)
+            elif key == "rechunk_lower":
+                p2p = rechunk_lower_oracle(before)
             b = r.node(before)
             if key == "slice_fromarray":
                 r.hints.extend(eager_copy_hints(r, before))
-            a = r.child(after)
+            if after is None:
+                a = None
+            elif key in ("elemwise_lower", "rechunk_elemwise") and type(after).__name__ == "Elemwise":
+                src = before if key == "elemwise_lower" else before.array
+                a = r.elemwise(after, before_ops=[*src.elemwise_args, src.where, src.out]
+                               if (src.where is not True or src.out is not None) else list(src.elemwise_args))
+            else:
+                a = r.child(after)
         except Unmodelled as e:
             self.bump(key, "unmodelled")
             self.chk.count("rule_unmodelled_reason:" + str(e)[:40])
             return False
         lim = pushdown_limit()
-        self.cases.append(ctuple(cnat(RULES.index(key)), cz(lim), b, f"(Some {a})"))
+        self.cases.append(ctuple(cnat(RULES.index(key)), cz(lim), tgt, cbool(p2p), b, f"(Some {a})" if a is not None else "None"))
         self.info.append({"rule": key, "hook": hook, "origin": origin, "before": exprs.tree(before), "limit": lim,
-                          "after": exprs.tree(after), "before_coq": b, "after_coq": a})
+                          "tgt": tgt, "p2p": p2p, "after": exprs.tree(after) if after is not None else "None",
+                          "before_coq": b, "after_coq": a if a is not None else "None"})
         return True
 
     def flush(self):
@@ -348,7 +531,8 @@ class RuleCheck:
                 self.bump(inf["rule"], "mismatched")
                 if shown < 5:
                     shown += 1
-                    fn = RULE_FN[inf["rule"]].replace(" lim", " " + cz(inf.get("limit", 0)))
+                    fn = (RULE_FN[inf["rule"]].replace(" lim", " " + cz(inf.get("limit", 0)))
+                          .replace(" tgt", " " + inf.get("tgt", "[]")).replace(" p2p", " " + cbool(inf.get("p2p", False))))
                     model = coq_eval_expr(HEADER, [f"{fn} {inf['before_coq']}"])[0]
                     chk.tie_break("correspondence:rule " + inf["rule"], {**inf, "model_after": model})
                 else:
@@ -363,6 +547,17 @@ class RuleCheck:
                 if inf["origin"] == "captured":
                     d["matched_captured"] = d.get("matched_captured", 0) + 1
                 chk.traces_validated += 1
+        # advertised chunks, model level
+        sel = [i for i, inf in enumerate(self.info)
+               if inf["rule"] in CHUNK_RULES and inf["after_coq"] != "None" and i not in bad_rule and i not in bad_wf]
+        if sel:
+            badc, _ = coq_eval_cases(HEADER, CASE_T, CHK_CHUNKS, [self.cases[i] for i in sel], chunk=200)
+            chk.count("rule_chunks_compared", len(sel))
+            for j in badc:
+                inf = self.info[sel[j]]
+                chk.violation(f"rewrite {inf['rule']} changes the advertised chunks (model level)",
+                              {k: inf[k] for k in ("rule", "hook", "before", "after", "before_coq", "after_coq")},
+                              signature={"class": "rewrite-changes-chunks-model", "rule": inf["rule"]})
         chk.extra["rule_instances"] = self.stats
         chk.extra["rule_mismatch_samples"] = [
             {k: inf[k] for k in ("rule", "hook", "origin", "before_coq", "after_coq")}
@@ -395,7 +590,8 @@ def directed_instances(chk, da, progs, n):
     kinds = ["slice_slice", "slice_identity", "slice_elemwise", "slice_elemwise", "slice_transpose", "slice_transpose",
              "transpose_transpose", "transpose_elemwise", "rechunk_rechunk", "rechunk_noop", "slice_expand", "slice_arange",
              "slice_fromarray", "slice_fromarray", "rechunk_fromarray",
-         "rechunk_elemwise"]
+             "rechunk_elemwise", "slice_concat", "slice_concat", "slice_stack", "slice_full", "elemwise_lower", "rechunk_lower",
+             "rechunk_lower", "slice_broadcast_to", "rechunk_concat", "rechunk_view"]
     for k in range(n):
         kind = kinds[k % len(kinds)]
         with warnings.catch_warnings():
@@ -564,6 +760,158 @@ def directed_instances(chk, da, progs, n):
                     if type(e.array) is not Elemwise:
                         continue
                     yield "Elemwise._simplify_up", e, e._pushdown()
+                elif kind in ("slice_concat", "slice_stack"):
+                    from dask_array._new_collection import new_collection
+                    from dask_array.stacking._concatenate import Concatenate
+                    from dask_array.stacking._stack import Stack
+                    shape = list(_rand_shape(rng))
+                    k = rng.choice([2, 2, 3, 4])
+                    if kind == "slice_concat":
+                        axis = rng.randrange(len(shape))
+                        parts = []
+                        for j in range(k):
+                            s2 = list(shape)
+                            s2[axis] = rng.choice([1, 1, 2, 3, 4, 5])
+                            parts.append(_opaque(da, _src(da, progs, rng, tuple(s2), base=100 * j)))
+                        y = da.concatenate(parts, axis=axis)
+                        cls = Concatenate
+                    else:
+                        axis = rng.randint(0, len(shape))
+                        parts = [_opaque(da, _src(da, progs, rng, tuple(shape), base=100 * j)) for j in range(k)]
+                        y = da.stack(parts, axis=axis)
+                        cls = Stack
+                    if type(y.expr) is not cls:
+                        continue
+                    r0 = rng.random()
+                    if r0 < 0.55:      # slices only, unit steps on the joined axis: the accepted family
+                        idx = progs.rand_index(rng, y.shape, allow_none=False, allow_int=False, neg_step=rng.random() < 0.3)
+                        idx = list(idx)
+                        if axis < len(idx) and isinstance(idx[axis], slice) and rng.random() < 0.85:
+                            idx[axis] = slice(idx[axis].start, idx[axis].stop)
+                        idx = tuple(idx)
+                    else:              # anything: integers, steps, empty selections (declines included)
+                        idx = progs.rand_index(rng, y.shape, allow_none=False, neg_step=rng.random() < 0.3)
+                    e = y[idx].expr
+                    if type(e) is not SliceSlicesIntegers or type(e.array) is not cls:
+                        continue
+                    yield cls.__name__ + "._simplify_up", e, e.array._accept_slice(e)
+                elif kind == "rechunk_view":
+                    from dask_array.manipulation._expand import ExpandDims
+                    shape = _rand_shape(rng, dims=(1, 2, 3, 4, 5, 6, 7, 8))
+                    x = _opaque(da, _src(da, progs, rng, shape))
+                    if rng.random() < 0.5:
+                        axes = list(range(len(shape)))
+                        rng.shuffle(axes)
+                        y = Transpose(x.expr, tuple(axes))
+                        hook = "Transpose._simplify_up"
+                    else:
+                        y = x
+                        for _ in range(rng.choice([1, 1, 2])):
+                            y = da.expand_dims(y, rng.randint(0, y.ndim))
+                        y = y.expr
+                        if type(y) is not ExpandDims:
+                            continue
+                        hook = "ExpandDims._simplify_up"
+                    c = tuple(progs.rand_chunks_for(rng, n) for n in y.shape)
+                    e = Rechunk(y, c, None, None, False, None)
+                    yield hook, e, e._pushdown()
+                elif kind == "rechunk_concat":
+                    from dask_array.stacking._concatenate import Concatenate
+                    shape = list(_rand_shape(rng, dims=(1, 2, 3, 4, 5, 6, 7, 8)))
+                    axis = rng.randrange(len(shape))
+                    parts = []
+                    for j in range(rng.choice([2, 2, 3])):
+                        s2 = list(shape)
+                        s2[axis] = rng.choice([1, 2, 3, 4, 5, 6])
+                        p = _src(da, progs, rng, tuple(s2), base=100 * j)
+                        parts.append(p if rng.random() < 0.5 else _opaque(da, p))
+                    y = da.concatenate(parts, axis=axis)
+                    if type(y.expr) is not Concatenate:
+                        continue
+                    c = list(y.chunks)
+                    for q in range(len(c)):
+                        r0 = rng.random()
+                        if q == axis and r0 < 0.6:
+                            c[q] = progs.rand_chunks_for(rng, y.shape[q])
+                        elif q != axis and r0 < 0.5:
+                            c[q] = progs.rand_chunks_for(rng, y.shape[q])
+                    e = Rechunk(y.expr, tuple(c), None, None, False, None)
+                    if rng.random() < 0.5:
+                        yield "Concatenate._simplify_up", e, e._pushdown()
+                    else:
+                        yield "Rechunk._lower", e, e._lower()
+                elif kind == "slice_broadcast_to":
+                    from dask_array._broadcast_to import BroadcastTo
+                    shape = _rand_shape(rng)
+                    s2 = tuple(1 if rng.random() < 0.35 else n for n in shape)
+                    x = _opaque(da, _src(da, progs, rng, s2))
+                    new = tuple(rng.choice([1, 2, 3]) for _ in range(rng.choice([0, 0, 1, 2])))
+                    target = new + tuple(rng.choice([1, 2, 3, 4]) if (a == 1 and rng.random() < 0.8) else n for a, n in zip(s2, shape))
+                    y = da.broadcast_to(x, target)
+                    if type(y.expr) is not BroadcastTo:
+                        continue
+                    if rng.random() < 0.6:
+                        idx = progs.rand_index(rng, y.shape, allow_none=False, allow_int=False, neg_step=False)
+                        idx = tuple(slice(i.start, i.stop) for i in idx)
+                    else:
+                        idx = progs.rand_index(rng, y.shape, allow_none=False)
+                    e = y[idx].expr
+                    if type(e) is not SliceSlicesIntegers or type(e.array) is not BroadcastTo:
+                        continue
+                    yield "BroadcastTo._simplify_up", e, e.array._accept_slice(e)
+                elif kind == "slice_full":
+                    from dask_array.creation._ones_zeros import BroadcastTrick
+                    shape = _rand_shape(rng)
+                    chunks = tuple(progs.rand_chunks_for(rng, n) for n in shape)
+                    f = rng.choice(["ones", "zeros", "full"])
+                    y = da.full(shape, 7, chunks=chunks, dtype="int64") if f == "full" else getattr(da, f)(shape, chunks=chunks, dtype="int64")
+                    idx = progs.rand_index(rng, y.shape, allow_none=False)
+                    e = y[idx].expr
+                    if type(e) is not SliceSlicesIntegers or not isinstance(e.array, BroadcastTrick):
+                        continue
+                    yield type(e.array).__name__ + "._simplify_up", e, e.array._accept_slice(e)
+                elif kind == "elemwise_lower":
+                    from dask_array._blockwise import Elemwise
+                    shape = _rand_shape(rng, dims=(1, 2, 3, 4, 5, 6, 7, 8))
+                    x = _src(da, progs, rng, shape)
+                    s2 = tuple(1 if rng.random() < 0.25 else n for n in shape)
+                    if rng.random() < 0.3:
+                        s2 = s2[rng.randint(0, len(s2)):]
+                    r0 = rng.random()
+                    if r0 < 0.12:
+                        # the rechunk the unification inserts for x is the very node that is the other operand
+                        y = da.add(x.rechunk(tuple(progs.rand_chunks_for(rng, n) for n in shape)), x)
+                    elif r0 < 0.6 and s2:
+                        y = da.add(x, _src(da, progs, rng, s2, base=100))
+                    elif r0 < 0.8 and s2:
+                        y = da.where(_src(da, progs, rng, s2, base=100) > 103, x, _src(da, progs, rng, shape, base=200))
+                    else:
+                        y = da.multiply(x, 2)
+                    e = y.expr
+                    if type(e) is not Elemwise:
+                        continue
+                    yield "Elemwise._lower", e, e._lower()
+                elif kind == "rechunk_lower":
+                    shape = _rand_shape(rng, dims=(1, 2, 3, 4, 5, 6, 7, 8, 9, 12))
+                    r0 = rng.random()
+                    if r0 < 0.25:
+                        x = _src(da, progs, rng, shape)                   # a NumPy read: re-cut
+                    elif r0 < 0.45:
+                        x = _opaque(da, _src(da, progs, rng, shape))
+                    else:                                                 # a slice of an opaque node: composition
+                        base = _opaque(da, _src(da, progs, rng, shape))
+                        idx = progs.rand_index(rng, base.shape, allow_none=False, neg_step=False)
+                        if rng.random() < 0.85:
+                            idx = tuple(slice(i.start, i.stop) if isinstance(i, slice) else i for i in idx)
+                        x = base[idx]
+                        if type(x.expr) is not SliceSlicesIntegers or x.ndim == 0:
+                            continue
+                    if rng.random() < 0.15:
+                        c = x.chunks
+                    else:
+                        c = tuple(progs.rand_chunks_for(rng, n) for n in x.shape)
+                    e = Rechunk(x.expr, c, None, None, rng.random() < 0.1, None)
+                    yield "Rechunk._lower", e, e._lower()
                 elif kind == "rechunk_fromarray":
                     shape = _rand_shape(rng, dims=(1, 2, 3, 4, 5, 6, 7, 8))
                     x = _src(da, progs, rng, shape)
@@ -594,21 +942,49 @@ def balance_corpus(chk, da):
                           signature={"class": "rewrite-changes-chunks", "rule": "rechunk_rechunk", "balance": "inner"})
 
 
+def balance_pushdown_corpus(chk, da):
+    """C02-B: Rechunk(view(x), c, balance=True) pushed through a Transpose / an Elemwise re-derives the operand rechunk
+    from the RAW chunk spec and drops balance: the rewritten node advertises the un-balanced chunks (values unchanged).
+    (The ExpandDims pushdown uses the settled self.chunks and keeps them.)"""
+    progsrc = {
+        "transpose": ("da.cumsum(da.from_array(np.arange(30).reshape(3, 10), chunks=(3, 10)), 0).T.rechunk((4, 3), balance=True)",
+                      lambda: da.cumsum(da.from_array(np.arange(30).reshape(3, 10), chunks=(3, 10)), 0).T.rechunk((4, 3), balance=True)),
+        "elemwise": ("(da.cumsum(da.from_array(np.arange(10), chunks=10), 0) + 1).rechunk(4, balance=True)",
+                     lambda: (da.cumsum(da.from_array(np.arange(10), chunks=10), 0) + 1).rechunk(4, balance=True)),
+    }
+    for through, (text, build) in progsrc.items():
+        with warnings.catch_warnings():
+            warnings.simplefilter("ignore")
+            before = build().expr
+            after = before._pushdown()
+        chk.case(("rule", "rechunk_" + through, "balance-corpus"), nontrivial=True)
+        if after is not None and after.chunks != before.chunks:
+            chk.violation(f"Rechunk({through}(x), c, balance=True) pushed through the {through} re-derives the rechunk from the raw "
+                          "spec without balancing: the advertised chunks change",
+                          {"program": text, "chunks_before": before.chunks, "chunks_after": after.chunks},
+                          signature={"class": "rewrite-changes-chunks", "rule": "rechunk_" + through, "balance": "outer"})
+
+
 def run_directed(chk, rc, da, progs, n):
     """directed stream: model correspondence + execution oracle for each instance"""
     balance_corpus(chk, da)
+    balance_pushdown_corpus(chk, da)
     for hook, before, after in directed_instances(chk, da, progs, n):
         key = classify(hook, before, after) if after is not None else None
         if after is None:
             # the implementation declined: the model must decline too
             k2 = classify(hook, before, before)
+            if k2 in NEW_RULES:
+                if rc.add(hook, before, None, "directed(declined)"):
+                    chk.count("rule_declined:" + k2)
+                continue
             if k2 is not None:
                 r = Reifier()
                 try:
                     b = r.node(before)
                 except Unmodelled:
                     continue
-                rc.cases.append(ctuple(cnat(RULES.index(k2)), cz(pushdown_limit()), b, "None"))
+                rc.cases.append(ctuple(cnat(RULES.index(k2)), cz(pushdown_limit()), "[]", "false", b, "None"))
                 rc.info.append({"rule": k2, "hook": hook, "origin": "directed(declined)", "before": exprs.tree(before),
                                 "limit": pushdown_limit(), "after": "None", "before_coq": b, "after_coq": "None"})
                 chk.count("rule_declined:" + k2)
